@@ -142,14 +142,14 @@ func (s *registrationServiceImpl) getInternalStateDescription(appCtx appctx.Appl
 		Extensions: []statejson.ExtensionDescription{},
 	}
 
+	s.mutex.Lock()
+	defer s.mutex.Unlock()
+
 	if s.runtime != nil {
 		// we use pointer here so that 'runtime' json field is nil if runtime is not set (as opposed to filled with default values)
 		rtdesc := s.runtime.GetRuntimeDescription()
 		isd.Runtime = &rtdesc
 	}
-
-	s.mutex.Lock()
-	defer s.mutex.Unlock()
 
 	s.internalAgents.Visit(func(agent *InternalAgent) {
 		isd.Extensions = append(isd.Extensions, agent.GetAgentDescription())
